@@ -65,6 +65,7 @@ func (t *Table) Scan(cb TableScanCB) error {
 	if err != nil {
 		return err
 	}
+	defer t.db.startWalk()()
 	_, err = root.Iter(
 		maxRecursion,
 		t.db,
@@ -93,6 +94,7 @@ func (t *Table) Rowid(rowid int64) (Record, error) {
 	if err != nil {
 		return nil, err
 	}
+	defer t.db.startWalk()()
 
 	var recPl *cellPayload
 	if _, err := root.IterMin(
@@ -143,6 +145,7 @@ func (in *Index) Scan(cb RecordCB) error {
 	if err != nil {
 		return err
 	}
+	defer in.db.startWalk()()
 
 	_, err = root.Iter(
 		maxRecursion,
@@ -160,6 +163,7 @@ func (in *Index) ScanEq(key Key, cb RecordCB) error {
 	if err != nil {
 		return err
 	}
+	defer in.db.startWalk()()
 
 	_, err = root.IterMin(
 		maxRecursion,
@@ -185,6 +189,7 @@ func (in *Index) ScanMin(from Key, cb RecordCB) error {
 	if err != nil {
 		return err
 	}
+	defer in.db.startWalk()()
 
 	_, err = root.IterMin(
 		maxRecursion,
@@ -206,6 +211,7 @@ func (in *Index) ScanRange(from, to Key, cb RecordCB) error {
 	if err != nil {
 		return err
 	}
+	defer in.db.startWalk()()
 
 	_, err = root.IterMin(
 		maxRecursion,
